@@ -96,3 +96,31 @@ Theorem historical_verify_iff : forall now1 now2 a b,
     live_time (qmetrics b) - live_time (qmetrics a) <=
       secs (now1 - timestamp a) - secs (now2 - timestamp b) + Consts.live_time_margin)).
 Proof. exact historical_verify_iff_lemma. Qed.
+
+(* ---- the stateful check, SwarmDriver::verify_peer_quote: for every delivery sequence (any peers,
+        any order of timestamps, any clock readings) ---- *)
+
+(* the reference kept for a peer is one of that peer's accepted (= delivered and not flagged)
+   quotes, is the newest of them, and reports at least as much uptime and as many payments as
+   every one of them *)
+Theorem history_invariant : forall ds p,
+  let h := fst (run_deliveries [] ds) in
+  (forall ref, h_lookup p h = Some ref -> In ref (accepted [] ds p)) /\
+  (forall a, In a (accepted [] ds p) -> exists ref, h_lookup p h = Some ref /\ dominates ref a).
+Proof. exact history_invariant_lemma. Qed.
+
+(* hence a quote at least as new as everything accepted so far from that peer, reporting less
+   than a strictly earlier accepted quote, is flagged *)
+Theorem regression_flagged : forall ds now p q a,
+  In a (accepted [] ds p) -> timestamp a < timestamp q -> reports_less q a ->
+  (forall a', In a' (accepted [] ds p) -> timestamp a' <= timestamp q) ->
+  snd (verify_peer_quote now (fst (run_deliveries [] ds)) p q) = true.
+Proof. exact regression_flagged_lemma. Qed.
+
+(* the unrestricted reading is refuted: a regressing quote that is older than the peer's newest
+   accepted quote is compared with that one only (known class regression-older-than-newest) *)
+Theorem regression_between_refuted :
+  exists ds now p q a,
+    In a (accepted [] ds p) /\ timestamp a < timestamp q /\ reports_less q a /\
+    snd (verify_peer_quote now (fst (run_deliveries [] ds)) p q) = false.
+Proof. exact regression_between_refuted_lemma. Qed.
